@@ -267,4 +267,188 @@ Section Erase.
       destruct (ainsert_down rank dflt L I (aheight (a_root t)) s (a_root t) e) as [[[st r1] s1] lg].
       rewrite D. reflexivity.
   Qed.
+
+  (* ---------------------------------------------------------------- remove_min / remove_max *)
+  Lemma erase_remove_min : forall f s (n : anode),
+    let '(m, n', s') := aremove_min dflt L I f s n in
+    remove_min dflt L I f (erase n) = (m, erase n') /\ oracle s' = oracle s.
+  Proof.
+    induction f as [|f IH]; intros s n; [split; reflexivity|].
+    cbn [aremove_min remove_min]. destruct n as [id vs|id vs cs]; cbn [erase]; [split; reflexivity|].
+    rewrite !nth_erase, !acan_remove_from_erase.
+    destruct (acan_remove_from L I (nth 0 cs adnode)).
+    - specialize (IH s (nth 0 cs adnode)).
+      destruct (aremove_min dflt L I f s (nth 0 cs adnode)) as [[m c'] s1]. destruct IH as [IH1 IH2].
+      rewrite IH1. cbn [erase]. rewrite map_aset. split; [reflexivity|exact IH2].
+    - change (Inode vs (map erase cs)) with (erase (AInode id vs cs)).
+      destruct (acan_remove_from L I (nth 1 cs adnode)).
+      + rewrite <- erase_rotate_left, achild_erase.
+        specialize (IH s (achild (arotate_left dflt (AInode id vs cs) 0) 0)).
+        destruct (aremove_min dflt L I f s (achild (arotate_left dflt (AInode id vs cs) 0) 0)) as [[m c'] s1].
+        destruct IH as [IH1 IH2]. rewrite IH1, erase_set_child. split; [reflexivity|exact IH2].
+      + destruct (amerge dflt s (AInode id vs cs) 0) as [n1 s0] eqn:M.
+        apply erase_merge_pair in M. destruct M as [M1 M2].
+        rewrite <- M1, achild_erase. specialize (IH s0 (achild n1 0)).
+        destruct (aremove_min dflt L I f s0 (achild n1 0)) as [[m c'] s1].
+        destruct IH as [IH1 IH2]. rewrite IH1, erase_plug. split; [reflexivity|congruence].
+  Qed.
+
+  Lemma erase_remove_max : forall f s (n : anode),
+    let '(m, n', s') := aremove_max dflt L I f s n in
+    remove_max dflt L I f (erase n) = (m, erase n') /\ oracle s' = oracle s.
+  Proof.
+    induction f as [|f IH]; intros s n; [split; reflexivity|].
+    cbn [aremove_max remove_max]. destruct n as [id vs|id vs cs]; cbn [erase]; [split; reflexivity|].
+    rewrite !nth_erase, !acan_remove_from_erase.
+    destruct (acan_remove_from L I (nth (length vs) cs adnode)).
+    - specialize (IH s (nth (length vs) cs adnode)).
+      destruct (aremove_max dflt L I f s (nth (length vs) cs adnode)) as [[m c'] s1]. destruct IH as [IH1 IH2].
+      rewrite IH1. cbn [erase]. rewrite map_aset. split; [reflexivity|exact IH2].
+    - change (Inode vs (map erase cs)) with (erase (AInode id vs cs)).
+      destruct (acan_remove_from L I (nth (length vs - 1) cs adnode)).
+      + rewrite <- erase_rotate_right, achild_erase.
+        specialize (IH s (achild (arotate_right dflt (AInode id vs cs) (length vs)) (length vs))).
+        destruct (aremove_max dflt L I f s (achild (arotate_right dflt (AInode id vs cs) (length vs)) (length vs)))
+          as [[m c'] s1].
+        destruct IH as [IH1 IH2]. rewrite IH1, erase_set_child. split; [reflexivity|exact IH2].
+      + destruct (amerge dflt s (AInode id vs cs) (length vs - 1)) as [n1 s0] eqn:M.
+        apply erase_merge_pair in M. destruct M as [M1 M2].
+        rewrite <- M1, achild_erase. specialize (IH s0 (achild n1 (length vs - 1))).
+        destruct (aremove_max dflt L I f s0 (achild n1 (length vs - 1))) as [[m c'] s1].
+        destruct IH as [IH1 IH2]. rewrite IH1, erase_plug. split; [reflexivity|congruence].
+  Qed.
+
+  (* ---------------------------------------------------------------- fatten_child / replace_value *)
+  Lemma erase_fatten_child : forall s (n : anode) i,
+    let '(n1, i', s') := afatten_child dflt L I s n i in
+    fatten_child dflt L I (erase n) i = (erase n1, i') /\ oracle s' = oracle s.
+  Proof.
+    intros s n i. unfold afatten_child, fatten_child.
+    rewrite !achild_erase, !acan_remove_from_erase, an_vals_erase.
+    destruct ((0 <? i) && acan_remove_from L I (achild n (i - 1))).
+    { rewrite erase_rotate_right. split; reflexivity. }
+    destruct ((i <? an_vals n) && acan_remove_from L I (achild n (i + 1))).
+    { rewrite erase_rotate_left. split; reflexivity. }
+    destruct (i =? an_vals n).
+    - destruct (amerge dflt s n (i - 1)) as [n1 s1] eqn:M. apply erase_merge_pair in M. destruct M as [M1 M2].
+      rewrite M1. split; [reflexivity|exact M2].
+    - destruct (amerge dflt s n i) as [n1 s1] eqn:M. apply erase_merge_pair in M. destruct M as [M1 M2].
+      rewrite M1. split; [reflexivity|exact M2].
+  Qed.
+
+  Definition erase_out (r : option (elt * anode)) : option (elt * node elt) :=
+    match r with Some (out, n') => Some (out, erase n') | None => None end.
+
+  Lemma erase_replace_value : forall f s (n : anode) i,
+    let '(r, s') := areplace_value dflt L I f s n i in
+    replace_value dflt L I f (erase n) i = erase_out r /\ oracle s' = oracle s.
+  Proof.
+    intros f s n i. unfold areplace_value, replace_value.
+    rewrite !achild_erase, !acan_remove_from_erase, !an_vals_erase, avals_erase.
+    destruct (negb (acan_remove_from L I (achild n i)) && negb (acan_remove_from L I (achild n (i + 1))));
+      [split; reflexivity|].
+    set (um := if an_vals (achild n (i + 1)) <? an_vals (achild n i) then true
+               else if an_vals (achild n i) <? an_vals (achild n (i + 1)) then false else Nat.odd i).
+    clearbody um.
+    pose proof (erase_remove_max f s (achild n i)) as HX.
+    pose proof (erase_remove_min f s (achild n (i + 1))) as HN.
+    destruct n as [id vs|id vs cs]; [split; reflexivity|]. cbn [erase].
+    destruct um.
+    - destruct (aremove_max dflt L I f s (achild (AInode id vs cs) i)) as [[m c'] s1].
+      destruct HX as [H1 H2]. rewrite H1. cbn [erase_out erase]. rewrite map_aset. split; [reflexivity|exact H2].
+    - destruct (aremove_min dflt L I f s (achild (AInode id vs cs) (i + 1))) as [[m c'] s1].
+      destruct HN as [H1 H2]. rewrite H1. cbn [erase_out erase]. rewrite map_aset. split; [reflexivity|exact H2].
+  Qed.
+
+  (* ---------------------------------------------------------------- remove_down *)
+  Definition erase_res (r : arm_res elt) : rm_res elt :=
+    mkRm (ar_st r) (ar_out r) (erase (ar_node r)) (ar_frames r) (ar_act r) (ar_log r).
+
+  Lemma erase_remove_down_eq : forall f s (n : anode) e,
+    remove_down rank dflt L I f (erase n) e = erase_res (aremove_down rank dflt L I f s n e) /\
+    oracle (ar_ast (aremove_down rank dflt L I f s n e)) = oracle s.
+  Proof.
+    induction f as [|f IH]; intros s n e; [split; reflexivity|].
+    cbn [aremove_down remove_down]. destruct n as [id vs|id vs cs]; cbn [erase].
+    - destruct (find_value dflt (cmpk rank e) vs) as [[i eq] lg]. destruct eq; cbn [negb]; [|split; reflexivity].
+      destruct (length (aerase vs i) =? 0); [split; reflexivity|].
+      destruct (i =? length (aerase vs i)); split; reflexivity.
+    - destruct (find_value dflt (cmpk rank e) vs) as [[i eq] lg].
+      change (Inode vs (map erase cs)) with (erase (AInode id vs cs)).
+      destruct eq.
+      + pose proof (erase_replace_value f s (AInode id vs cs) i) as R.
+        destruct (areplace_value dflt L I f s (AInode id vs cs) i) as [[[out n']|] s1];
+          destruct R as [R1 R2]; rewrite R1; cbn [erase_out].
+        * rewrite avals_erase. split; [reflexivity|exact R2].
+        * destruct (amerge dflt s1 (AInode id vs cs) i) as [n1 s2] eqn:M.
+          apply erase_merge_pair in M. destruct M as [M1 M2].
+          rewrite <- M1, achild_erase.
+          destruct (IH s2 (achild n1 i) e) as [IH1 IH2]. rewrite IH1.
+          unfold erase_res. cbn [rr_st rr_out rr_node rr_frames rr_act rr_log
+                                 ar_st ar_out ar_node ar_frames ar_act ar_log ar_ast].
+          rewrite erase_plug. split; [reflexivity|congruence].
+      + cbn [erase]. rewrite nth_erase, acan_remove_from_erase.
+        destruct (acan_remove_from L I (nth i cs adnode)).
+        * destruct (IH s (nth i cs adnode) e) as [IH1 IH2]. rewrite IH1.
+          unfold erase_res. cbn [rr_st rr_out rr_node rr_frames rr_act rr_log
+                                 ar_st ar_out ar_node ar_frames ar_act ar_log ar_ast erase].
+          rewrite map_aset. split; [reflexivity|exact IH2].
+        * change (Inode vs (map erase cs)) with (erase (AInode id vs cs)).
+          pose proof (erase_fatten_child s (AInode id vs cs) i) as F.
+          destruct (afatten_child dflt L I s (AInode id vs cs) i) as [[n1 i'] s1].
+          destruct F as [F1 F2]. rewrite F1, achild_erase.
+          destruct (IH s1 (achild n1 i') e) as [IH1 IH2]. rewrite IH1.
+          unfold erase_res. cbn [rr_st rr_out rr_node rr_frames rr_act rr_log
+                                 ar_st ar_out ar_node ar_frames ar_act ar_log ar_ast].
+          rewrite erase_plug. split; [reflexivity|congruence].
+  Qed.
+
+  Lemma erase_remove_down : forall f s (n : anode) e,
+    let r := aremove_down rank dflt L I f s n e in
+    let r' := remove_down rank dflt L I f (erase n) e in
+    rr_st r' = ar_st r /\ rr_out r' = ar_out r /\ rr_node r' = erase (ar_node r) /\
+    rr_frames r' = ar_frames r /\ rr_act r' = ar_act r /\ rr_log r' = ar_log r /\
+    oracle (ar_ast r) = oracle s.
+  Proof.
+    intros f s n e. destruct (erase_remove_down_eq f s n e) as [H1 H2].
+    cbv zeta. rewrite H1. unfold erase_res. cbn [rr_st rr_out rr_node rr_frames rr_act rr_log].
+    repeat split. exact H2.
+  Qed.
+
+  (* ---------------------------------------------------------------- remove / clear / new *)
+  Lemma erase_remove : forall s (t : atree) e,
+    let '(st, out, t', s', lg) := aremove_op rank dflt L I s t e in
+    exists it, remove rank dflt L I (erase_tree t) e = (st, out, erase_tree t', it, lg) /\ oracle s' = oracle s.
+  Proof.
+    intros s t e. unfold aremove_op, remove. cbn [erase_tree root size].
+    rewrite ais_leaf_erase, an_vals_erase, !achild_erase, !acan_remove_from_erase.
+    destruct (negb (ais_leaf (a_root t)) && (an_vals (a_root t) =? 1)
+              && negb (acan_remove_from L I (achild (a_root t) 0))
+              && negb (acan_remove_from L I (achild (a_root t) 1))).
+    - destruct (amerge dflt s (a_root t) 0) as [n1 s1] eqn:M.
+      apply erase_merge_pair in M. destruct M as [M1 M2].
+      rewrite <- M1, achild_erase, aheight_erase.
+      destruct (erase_remove_down_eq (aheight (achild n1 0)) s1 (achild n1 0) e) as [D1 D2].
+      rewrite D1. unfold erase_res. cbn [rr_st rr_out rr_node rr_frames rr_act rr_log].
+      eexists. split; [reflexivity|congruence].
+    - rewrite aheight_erase.
+      destruct (erase_remove_down_eq (aheight (a_root t)) s (a_root t) e) as [D1 D2].
+      rewrite D1. unfold erase_res. cbn [rr_st rr_out rr_node rr_frames rr_act rr_log].
+      eexists. split; [reflexivity|exact D2].
+  Qed.
+
+  Lemma erase_clear : forall s (t : atree) d,
+    fst (clear (erase_tree t) d) = erase_tree (fst (aclear_op s t)).
+  Proof. reflexivity. Qed.
+
+  Lemma erase_new : forall s,
+    match @anew_op elt s with
+    | (Some t, _) => erase_tree t = empty_tree
+    | (None, _) => True
+    end.
+  Proof.
+    intros s. unfold anew_op.
+    destruct (AllocModel.alloc Aligned s) as [[tid|] s1]; [|exact Logic.I].
+    destruct (AllocModel.alloc Aligned s1) as [[rid|] s2]; [reflexivity|exact Logic.I].
+  Qed.
 End Erase.
